@@ -76,6 +76,12 @@ def probes(rng, nvals, owner, prev, c):
             arg = {6: rng.choice([0, 0, 1, 2, 1000 + max(v, 0), 1001]), 8: rng.choice([0, 1, 2, 3, 1000 + max(v, 0), 1001]),
                    9: rng.choice([0, 3, 5, 10, 100, 101, -1])}.get(tag)
             out.append([tag, c, v, s] + ([arg] if arg is not None else []))
+    # the validators themselves (valid signer), incl. colliding keys and own / foreign provider keys
+    for v in range(nvals):
+        for tag in rng.sample([6, 7, 8, 8, 9], 3):
+            arg = {6: rng.choice([0, 1, 2, 1000 + v]), 8: rng.choice([1, 2, 3, 4, 1000 + v, 1000 + (v + 1) % nvals]),
+                   9: rng.choice([0, 4, 5, 10, 100])}.get(tag)
+            out.append([tag, c, v, 10 + v] + ([arg] if arg is not None else []))
     return out
 
 
@@ -137,7 +143,7 @@ def mk(rng, kind, acts, nvals=None):
 
 
 def gen(rng, tier):
-    reps, nrand = (3, 260) if tier == "quick" else (40, 6000)
+    reps, nrand = (4, 400) if tier == "quick" else (40, 6000)
     for b in both_ways(rng):
         yield mk(rng, "both", b["acts"])
     for _ in range(reps):
